@@ -160,6 +160,7 @@ def run(ctx):
     proved = ctx.prove('C10', THEOREMS)
     from aiosmpplib.codec import find_codec_info
     codec = find_codec_info('gsm0338')
+    plain_codec = codec
     alphabet = spec_alphabet()
     alpha_chars = [chr(c) for _k, c in alphabet[0]] + [chr(c) for _k, c in alphabet[1]]
 
@@ -227,6 +228,25 @@ def run(ctx):
         msg = oracle_decode(codec, alphabet, data, m)
         if msg:
             ctx.violation(msg, {'function': 'gsm0338.decode', 'input': data, 'mode': m, 'observed': r})
+    # ---- purity: the codecs are functions; repeated and interleaved calls (plain/packed codec objects
+    # share code) must keep returning what the first call returned, and every call must match the model
+    packed = find_codec_info('gsm0338_packed')
+    pur = gen_strings(ctx, alphabet, 400 if ctx.thorough else 120, 40)
+    for k, s in enumerate(pur):
+        m = ctx.rng.choice(MODES)
+        seq = ['p', 'g', 'g', 'p'] if k % 2 == 0 else ['g', 'p', 'p', 'g']
+        first = {}
+        for which in seq:
+            cdc = plain_codec if which == 'g' else packed
+            r = common.ser_res_bytes(lambda: cdc.encode(s, m)[0])
+            if which == 'g':
+                enc_cases.append((f'({CMODE[m]}, {core.cstr(s)})', czl(r)))
+            if which in first and first[which] != r:
+                ctx.violation(f'{"gsm0338" if which == "g" else "gsm0338_packed"}.encode({s!r},{m}) changed its result after other codec calls: {first[which]} then {r}',
+                              {'function': 'purity', 'input': [ord(c) for c in s], 'mode': m, 'call_sequence': seq})
+            first.setdefault(which, r)
+        ctx.case(('purity', m, s), nontrivial=len(s) > 0)
+    ctx.count('purity_interleaved_call_sequences', len(pur))
     ctx.sample({'encode': {'text': 'H€{@Δ', 'mode': 'strict', 'impl': list(codec.encode('H€{@Δ')[0])}})
     ctx.sample({'decode': {'octets': [0x1B, 0x99, 0x42], 'mode': 'strict', 'impl': codec.decode(bytes([0x1B, 0x99, 0x42]))[0]}})
 
